@@ -22,7 +22,15 @@ impl Fam<'_> {
         self.rep.count("order-family-cases");
         self.rep.shape("order_family", label);
         self.rep.distinct_case(&src);
-        let got = match real::parse_exec(src, true) {
+        let out = real::parse_exec(src, true);
+        if let Outcome::Panic(p) = &out {
+            if p.kind != real::PanicKind::Panic {
+                // fuel / depth / memory exhausted: nothing was decided
+                self.rep.inconclusive("order-family:resource-or-fuel");
+                return;
+            }
+        }
+        let got = match out {
             Outcome::Value(v) => canon(&v),
             Outcome::ExecErr(Some(k), _) => format!("error:{}", k.name()),
             // an operation on constants that always fails may be reported while parsing (C04's allowance)
@@ -239,6 +247,12 @@ impl Fam<'_> {
             self.rep.evaluations += 1;
             self.rep.count("loop-value-cases");
             let out = real::parse_exec(src, true);
+            if let Outcome::Panic(p) = &out {
+                if p.kind != real::PanicKind::Panic {
+                    self.rep.inconclusive("loop-value:resource-or-fuel");
+                    continue;
+                }
+            }
             let got = match &out {
                 Outcome::Value(v) => canon(v),
                 other => other.tag(),
